@@ -1,6 +1,7 @@
 import Proofs.NumLemmas
 import Proofs.SprintLemmas
 import Proofs.F64Mono
+import Proofs.NumZero
 /-!
 # C17 — numeric filters compute exact arithmetic and report impossible operations
 
@@ -364,6 +365,151 @@ theorem modulo_zero_filter (a : Rat) (kr : FltKind) (z : GoVal)
   rw [convertArgs_val_cons hznil, hconv]
   simp only [Res.bind, convertArgs, numImpl_modulo]
   simp [modulo_zero_err a, retErr]
+
+/-! ### … for every receiver
+
+The receiver parameter of both filters is a `float64`: `ApplyFilter` converts the receiver first (`convert recv .f64`)
+and the body sees only the float. So a zero divisor is the error whatever kind the receiver has. -/
+
+/-- the receiver is any value that `Convert` turns into a float64 `a` -/
+theorem divided_by_zero_recv (recv z : GoVal) (a : Rat) (hn : recv ≠ .nil)
+    (hc : convert recv .f64 = .ok (.flt .f64 a)) (hz : (∃ k, z = .int k 0) ∨ (∃ k, z = .flt k 0)) :
+    applyFilter (lookupImpl Num.impls) (Num.bn "divided_by") recv [z]
+      = .err (.filterErr (Num.bn "divided_by") .divZero) := by
+  have hs : lookupSig (Num.bn "divided_by") = some ⟨Num.bn "divided_by", [.val .f64, .val .any], true⟩ := by
+    decide +kernel
+  have hznil : z ≠ .nil := by rcases hz with ⟨k, h⟩ | ⟨k, h⟩ <;> simp [h]
+  have hconv : convert z .any = .ok z := by
+    rcases hz with ⟨k, h⟩ | ⟨k, h⟩ <;> simp [h, convert, convAny, GoVal.toLiquid]
+  unfold applyFilter
+  simp only [hs, List.length_cons, List.length_nil]
+  rw [convertArgs_val_cons hn, hc]
+  simp only [Res.bind]
+  rw [convertArgs_val_cons hznil, hconv]
+  simp only [Res.bind, convertArgs, numImpl_divided_by]
+  rcases hz with ⟨k, h⟩ | ⟨k, h⟩
+  · subst h; simp [(divided_by_zero_err a).1 k, retErr]
+  · subst h; simp [(divided_by_zero_err a).2 k, retErr]
+
+theorem modulo_zero_recv (recv z : GoVal) (a : Rat) (hn : recv ≠ .nil)
+    (hc : convert recv .f64 = .ok (.flt .f64 a)) (hz : (∃ k, z = .int k 0) ∨ (∃ k, z = .flt k 0)) :
+    applyFilter (lookupImpl Num.impls) (Num.bn "modulo") recv [z]
+      = .err (.filterErr (Num.bn "modulo") .divZero) := by
+  have hs : lookupSig (Num.bn "modulo") = some ⟨Num.bn "modulo", [.val .f64, .val .f64], true⟩ := by
+    decide +kernel
+  have hznil : z ≠ .nil := by rcases hz with ⟨k, h⟩ | ⟨k, h⟩ <;> simp [h]
+  have hconv : convert z .f64 = .ok (.flt .f64 0) := by
+    rcases hz with ⟨k, h⟩ | ⟨k, h⟩
+    · simp [h, convert, GoVal.toLiquid, f64Round, roundF64_zero]
+    · simp [h, convert, GoVal.toLiquid]
+  unfold applyFilter
+  simp only [hs, List.length_cons, List.length_nil]
+  rw [convertArgs_val_cons hn, hc]
+  simp only [Res.bind]
+  rw [convertArgs_val_cons hznil, hconv]
+  simp only [Res.bind, convertArgs, numImpl_modulo]
+  simp [modulo_zero_err a, retErr]
+
+/-- a numeric receiver: an integer of any Go kind (within the range of its kind), a float of either width, or a
+string that spells a decimal number within the float64 range (not a spelling of −0, which is outside the model) -/
+inductive NumericRecv : GoVal → Prop where
+  | int (k : IntKind) (n : Int) (h : k.inRange n = true) : NumericRecv (.int k n)
+  | flt (k : FltKind) (a : Rat) : NumericRecv (.flt k a)
+  | str (s : Bytes) (q r : Rat) (hn : readNumber s = .num q) (hr : roundF64 q = some r)
+      (hz : r = 0 → s.head? ≠ some 45) : NumericRecv (.str s)
+
+theorem numericRecv_converts (recv : GoVal) (h : NumericRecv recv) :
+    recv ≠ .nil ∧ ∃ a, convert recv .f64 = .ok (.flt .f64 a) := by
+  cases h with
+  | int k n hk => obtain ⟨r, _, e⟩ := convert_int_f64 k n hk; exact ⟨by simp, r, e⟩
+  | flt k a => exact ⟨by simp, a, convert_flt_f64 k a⟩
+  | str s q r hn hr hz => exact ⟨by simp, r, convert_str_f64 hn hr hz⟩
+
+/-- `divided_by: 0`, `divided_by: 0.0`, `modulo: 0`, `modulo: 0.0` (a zero of any integer kind or float width) with
+an int, uint, float or numeric-string receiver: the error "division by zero", for all 16 combinations at once -/
+theorem zero_divisor_every_receiver (recv z : GoVal) (hr : NumericRecv recv)
+    (hz : (∃ k, z = .int k 0) ∨ (∃ k, z = .flt k 0)) :
+    applyFilter (lookupImpl Num.impls) (Num.bn "divided_by") recv [z]
+      = .err (.filterErr (Num.bn "divided_by") .divZero) ∧
+    applyFilter (lookupImpl Num.impls) (Num.bn "modulo") recv [z]
+      = .err (.filterErr (Num.bn "modulo") .divZero) := by
+  obtain ⟨hn, a, hc⟩ := numericRecv_converts recv hr
+  exact ⟨divided_by_zero_recv recv z a hn hc hz, modulo_zero_recv recv z a hn hc hz⟩
+
+example : NumericRecv (.int .int 7) ∧ NumericRecv (.int .u64 (2 ^ 64 - 1)) ∧ NumericRecv (.flt .f32 (15 / 2))
+    ∧ NumericRecv (.str [55, 46, 53]) :=
+  ⟨.int _ _ (by decide), .int _ _ (by decide), .flt _ _,
+   .str _ (15 / 2) (15 / 2) (by decide +kernel) (by decide +kernel) (by decide +kernel)⟩   -- 7, MaxUint64, 7.5, "7.5"
+
+/-- … and for EVERY receiver whatsoever (nil, a bool, a string that spells no number or −0 or overflows, an array …)
+a zero divisor never produces output: the result of the filter is not a value -/
+theorem zero_divisor_never_output (recv z v : GoVal) (hz : (∃ k, z = .int k 0) ∨ (∃ k, z = .flt k 0)) :
+    applyFilter (lookupImpl Num.impls) (Num.bn "divided_by") recv [z] ≠ .ok v ∧
+    applyFilter (lookupImpl Num.impls) (Num.bn "modulo") recv [z] ≠ .ok v := by
+  have hs1 : lookupSig (Num.bn "divided_by") = some ⟨Num.bn "divided_by", [.val .f64, .val .any], true⟩ := by
+    decide +kernel
+  have hs2 : lookupSig (Num.bn "modulo") = some ⟨Num.bn "modulo", [.val .f64, .val .f64], true⟩ := by
+    decide +kernel
+  by_cases hn : recv = .nil
+  · -- a nil receiver is the zero value of the parameter, 0.0
+    subst hn
+    have hznil : z ≠ .nil := by rcases hz with ⟨k, h⟩ | ⟨k, h⟩ <;> simp [h]
+    have hconv : convert z .any = .ok z := by
+      rcases hz with ⟨k, h⟩ | ⟨k, h⟩ <;> simp [h, convert, convAny, GoVal.toLiquid]
+    have hconv2 : convert z .f64 = .ok (.flt .f64 0) := by
+      rcases hz with ⟨k, h⟩ | ⟨k, h⟩
+      · simp [h, convert, GoVal.toLiquid, f64Round, roundF64_zero]
+      · simp [h, convert, GoVal.toLiquid]
+    constructor
+    · unfold applyFilter
+      simp only [hs1, List.length_cons, List.length_nil]
+      simp only [convertArgs]
+      rw [hconv]
+      simp only [Res.bind, numImpl_divided_by, ParamTy.zero]
+      rcases hz with ⟨k, h⟩ | ⟨k, h⟩
+      · subst h; simp [(divided_by_zero_err 0).1 k, retErr]
+      · subst h; simp [(divided_by_zero_err 0).2 k, retErr]
+    · unfold applyFilter
+      simp only [hs2, List.length_cons, List.length_nil]
+      simp only [convertArgs]
+      rw [hconv2]
+      simp only [Res.bind, numImpl_modulo, ParamTy.zero]
+      simp [modulo_zero_err 0, retErr]
+  · cases hc : convert recv .f64 with
+    | ok c =>
+      obtain ⟨a, rfl⟩ := convert_f64_shape recv c hc
+      rw [divided_by_zero_recv recv z a hn hc hz, modulo_zero_recv recv z a hn hc hz]
+      simp
+    | err e =>
+      constructor
+      · unfold applyFilter
+        simp only [hs1, List.length_cons, List.length_nil]
+        rw [convertArgs_val_cons hn, hc]
+        simp [Res.bind]
+      · unfold applyFilter
+        simp only [hs2, List.length_cons, List.length_nil]
+        rw [convertArgs_val_cons hn, hc]
+        simp [Res.bind]
+    | panic w =>
+      constructor
+      · unfold applyFilter
+        simp only [hs1, List.length_cons, List.length_nil]
+        rw [convertArgs_val_cons hn, hc]
+        simp [Res.bind]
+      · unfold applyFilter
+        simp only [hs2, List.length_cons, List.length_nil]
+        rw [convertArgs_val_cons hn, hc]
+        simp [Res.bind]
+    | unmodelled w =>
+      constructor
+      · unfold applyFilter
+        simp only [hs1, List.length_cons, List.length_nil]
+        rw [convertArgs_val_cons hn, hc]
+        simp [Res.bind]
+      · unfold applyFilter
+        simp only [hs2, List.length_cons, List.length_nil]
+        rw [convertArgs_val_cons hn, hc]
+        simp [Res.bind]
 
 /-! ## printing: a whole-number result is written without a fractional part or exponent -/
 
